@@ -529,6 +529,11 @@ func (encryptor *QueryDataEncryptor) getInsertPlaceholders(ctx context.Context, 
 				logger.WithFields(logrus.Fields{"value_index": i, "column_count": len(columns)}).Warningln("Amount of values in INSERT bigger than column count")
 				continue
 			}
+			// only placeholders stand for bound values: a literal (or any other expression) has no
+			// parameter number and must not take part in the placeholder-to-column mapping
+			if value.GetParamRef() == nil {
+				continue
+			}
 			err := encryptor.updatePlaceholderMap(valuesCount, placeholders, int(value.GetParamRef().GetNumber()), columns[i])
 			if err != nil {
 				return nil, err
@@ -622,6 +627,10 @@ func (encryptor *QueryDataEncryptor) encryptUpdateValues(ctx context.Context, up
 		}
 
 		columnName := target.GetResTarget().GetName()
+		// only placeholders stand for bound values (see getInsertPlaceholders)
+		if target.GetResTarget().GetVal().GetParamRef() == nil {
+			continue
+		}
 		index := int(target.GetResTarget().GetVal().GetParamRef().GetNumber())
 		err := encryptor.updatePlaceholderMap(len(values), placeholders, index, columnName)
 		if err != nil {
